@@ -122,6 +122,16 @@ def run(full=False, seed=12345):
         _req(int.from_bytes(b, "big") == _b58_int(s), "b58 value")
         _req(base58.classify_check(base58.encode_check(b)) == ("valid", b), "b58check")
         n += 3
+    # the long-input route (chunked big-integer arithmetic) against the byte-wise algorithm on every length up to 300
+    for ln in range(0, 301):
+        for z in (0, 1, 4):
+            if z > ln:
+                continue
+            b = b"\x00" * z + bytes(rnd.randrange(256) for _ in range(ln - z))
+            s = base58.encode(b)                   # (byte-wise: ln <= LONG)
+            _req(base58._encode_long(b) == s, "b58 long-route encode")
+            _req(base58._decode_long(s) == b, "b58 long-route decode")
+            n += 2
     _req(base58.encode_check(bytes.fromhex("00" + "f54a5851e9372b87810a8e60cdd2e7cfd80b6e31")) ==
          "1PMycacnJaSqwwJqjawXBErnLsZ7RkXUAs", "known p2pkh")
     # --- bech32
